@@ -82,6 +82,9 @@ and parse_list (toks : ostring list) : prog list * ostring list =
    (up to the first P / D / the end) consists of flags only and leaves the sandbox flag on, "-" otherwise. *)
 let arg_of = function
   | "S" -> ASandbox None | "S=1" -> ASandbox (Some true) | "S=0" -> ASandbox (Some false)
+  | "I" | "I=1" -> AInteractive true | "I=0" -> AInteractive false
+  | "E" | "E=1" -> AExitOnFail true | "E=0" -> AExitOnFail false
+  | "C" -> ACommand false | "CI" -> ACommand true
   | "B" -> ABool | "VI" -> AStr true | "V" -> AStr false | "D" -> ADashDash | "P" -> APlain | "X" -> ABad
   | s -> raise (Bad ("arg " ^ s))
 let outcome_name = function ORejected -> "rejected" | OSandboxed -> "sandboxed" | OOpen -> "open"
@@ -95,6 +98,29 @@ let cmdline_case (toks : ostring) : ostring * ostring =
     | [] | APlain :: _ | ADashDash :: _ -> if last_sandbox false pre then "sandboxed" else "-"
     | _ -> "-") in
   (outcome_name (run_cmdline args), spec)
+
+(* session cases: INPUT = "session <tokens> <F|K> :: ..." (F: the script ends in an error, K: it does not).
+   MODEL = "phase:kind,phase:kind" of `session`, or "rejected"; SPEC = "sandboxed" when the flag part leaves the
+   sandbox flag on (then every phase must be sandboxed), "-" otherwise. *)
+let phase_name = function
+  | PhCommand -> "command" | PhScript -> "script" | PhReplAfterFailedScript -> "repl-after-failed-script"
+  | PhReplAfterScript -> "repl-after-script" | PhRepl -> "repl"
+let session_case (toks : ostring) : ostring * ostring =
+  let ws = List.filter (fun x -> x <> "") (Stdlib.String.split_on_char ' ' toks) in
+  let rec split_last = function [] -> raise (Bad "session") | [x] -> ([], x) | x :: r -> let (a, l) = split_last r in (x :: a, l) in
+  let ts, fk = split_last ws in
+  let args = List.map arg_of ts in
+  let rec flagpart acc = function
+    | a :: r when is_flag a -> flagpart (a :: acc) r
+    | r -> (List.rev acc, r) in
+  let pre, rest = flagpart [] args in
+  let spec = (match rest with
+    | [] | APlain :: _ | ADashDash :: _ -> if last_sandbox false pre then "sandboxed" else "-"
+    | _ -> "-") in
+  let m = (match session args (fk = "F") with
+    | None -> "rejected"
+    | Some phs -> Stdlib.String.concat "," (List.map (fun (ph, k) -> phase_name ph ^ ":" ^ outcome_name k) phs)) in
+  (m, spec)
 
 let cfg_of = function "bare" -> Bare | "std" -> Std | "bin" -> Bin | "full" -> Full | s -> raise (Bad ("cfg " ^ s))
 
@@ -111,6 +137,10 @@ let () =
       (try
         let k = find_sub input " :: " in
         let head = String.sub input 0 k in
+        if Stdlib.String.length head > 8 && Stdlib.String.sub head 0 8 = "session " then begin
+          let m, sp = session_case (Stdlib.String.sub head 8 (Stdlib.String.length head - 8)) in
+          Printf.printf "%s\t%s\t%s\n" id m sp
+        end else
         if Stdlib.String.length head > 8 && Stdlib.String.sub head 0 8 = "cmdline " then begin
           let m, sp = cmdline_case (Stdlib.String.sub head 8 (Stdlib.String.length head - 8)) in
           Printf.printf "%s\t%s\t%s\n" id m sp
